@@ -16,7 +16,7 @@ RULE = ("lattice start<=stop in -2..6 (integers, incl. stop=0) x dt in {1,.5,.25
 ASSUMPTIONS = ["run specs are integers set through run_specs/configure as the scenario loader does (Model(starttime=..) stores floats, which range() rejects: API precondition, not judged)",
                "for a population change made inside act() the statement is read as: every agent alive before and after the step acts exactly once, in creation order; agents deleted or created inside the step may act at most once",
                "time is compared with round+step*dt up to 1e-9"]
-REQUIRED = {"scheduler_positions_checked": 2000, "second_runs": 20, "session_calls": 15, "steps_observed": 2000, "acts_observed": 2000, "collects_observed": 1000, "steps_with_population_change_inside_act": 50}
+REQUIRED = {"dt_assigned_after_configuration": 20, "scheduler_positions_checked": 2000, "second_runs": 20, "session_calls": 15, "steps_observed": 2000, "acts_observed": 2000, "collects_observed": 1000, "steps_with_population_change_inside_act": 50}
 BUDGET_S = {"quick": 100, "thorough": 900}
 DTS = ["1", "0.5", "0.25", "0.2", "0.1"]
 RECIP = [3, 7, 93, 105, 49, 186, 99, 117, 123, 198, 210, 211, 6, 9, 12, 100, 1000]
@@ -186,7 +186,13 @@ def run_case(case):
     pos_models = []
     try:
         if case["driver"] == "run":
-            m = abm.new_model(case["start"], case["stop"], dt, script=case["script"], agents=agents)
+            if (case["start"] + case["stop"] + case["n_agents"]) % 3 == 1:
+                # the model is configured with another dt first; the dt of the run is then ASSIGNED (model.dt = ..., as REST /run settings do)
+                m = abm.new_model(case["start"], case["stop"], 1.0 if dt != 1.0 else 0.5, script=case["script"], agents=agents)
+                m.dt = dt
+                counters["dt_assigned_after_configuration"] = 1
+            else:
+                m = abm.new_model(case["start"], case["stop"], dt, script=case["script"], agents=agents)
             m.run(collect_data=case["collect"])
             pos_models.append(m)
             logs.append((list(m.log), dict(m.data_collector.agent_statistics), case["collect"]))
